@@ -6,6 +6,6 @@ if ! git diff --quiet; then echo "/repo has uncommitted changes"; exit 2; fi
 if git apply --check /verif/seeded/$name/patch.diff 2>/dev/null; then git apply /verif/seeded/$name/patch.diff; else patch -p1 -F3 -s < /verif/seeded/$name/patch.diff || { git checkout -- .; echo "patch does not apply"; exit 2; }; fi
 for p in "$@"; do
   echo "--- $name vs $p"
-  (cd /verif && env ${SKIPMC:+VERIF_SKIP_MC=1} ./check $p --tier ${TIER:-quick} 2>&1 | grep -E "VIOLATION|held on|VIOLATED|MACHINERY|^    C" | cut -c1-300 | head -${LINES_MAX:-8})
+  (cd /verif && env VERIF_NO_EVIDENCE=1 ${SKIPMC:+VERIF_SKIP_MC=1} ./check $p --tier ${TIER:-quick} 2>&1 | grep -E "VIOLATION|held on|VIOLATED|MACHINERY|^    C" | cut -c1-300 | head -${LINES_MAX:-8})
 done
 git checkout -- . ; git status --short | head -3
